@@ -150,6 +150,16 @@ CHECKS = {
          "The technique contributes least here: oracles are tables / an integer formula with stated tolerances (0.1 %, 1e-6, 3e-4); numeric "
          "drift below them is invisible; TAS/CAS >= EAS is checked at and above sea level only ('at altitude').",
          "DESIGN.md section 5 C20"),
+ "C15": ("two-implementation conformance against one TLA+ spec: every shared function is driven over its domain in lane P (py_common), "
+         "lane T (the working-tree c_common.pyx executed through a transliterator with C coercion semantics) and lane B (the Cython-"
+         "generated C compiled with gcc, per function only where a freshness gate shows it matches the .pyx); TLC validates every "
+         "lane's events with the same verdict operators (sentinels stand for None only in the C lanes); the library-level vector sets "
+         "of C07-C10, C12, C13 are replayed under the .pyx lane",
+         "Exhaustive 13-bit altitude / identity codes and 11-bit Gray codes, DF/TC cells, 1.5k-60k random frames in any letter case, the C06 "
+         "latitude set, rational floor arguments, address-block boundaries; T and B compared vector by vector where B is fresh.",
+         "Cython is not installed: nothing here shows that a future Cython build of the .pyx behaves like lane T; lane B depends on the "
+         "(git-ignored) generated c_common.c being present; hex2int/bin2int driven within a C long.",
+         "DESIGN.md section 3 (lanes), section 5 C15"),
 }
 
 PENDING = {}
